@@ -41,7 +41,7 @@ def install():
                 _STACK.pop()
         return orig_visit(self, node)
 
-    def add_name(self, name):
+    def add_name(self, name, *args, **kwargs):
         COUNTS['add_name'] += 1
         if isinstance(name, (sname.ImportedName, sscope.ClassScope)):
             if _STACK:
@@ -52,7 +52,7 @@ def install():
                 if st is not None:
                     name._vf_stmt = st
                     COUNTS['stamped'] += 1
-        return orig_add(self, name)
+        return orig_add(self, name, *args, **kwargs)
 
     nast.extract_visitor.visit = visit
     sscope.Flow.add_name = add_name
